@@ -65,6 +65,19 @@ def handle (j : Json) : R Json := do
         | none => false) then
       -- F28: an authorization envelope carrying no signature at all makes the prediction fail hard
       finding := some "F28"
+    else if implOk && implNeed && verdict cv none &&
+        cands.all (fun (s, v) =>
+          let eligible := match s, P? with
+            | some k, some P => W.recorderEligible P A target frm tree k
+            | _, _ => false
+          (v.cls == "ok") || !eligible) &&
+        (match j.getObjVal? "open" with
+         | .ok o => (strList o).toOption.getD [] |>.contains "F66"
+         | .error _ => true) then
+      -- F66: the mergeability loop stops at the first rule that is one principal short although a
+      -- later rule consulted for the branch is already met: "signature needed" is reported, yet the
+      -- recorded merge verifies whoever records it (the only disagreement is in that direction)
+      finding := some "F66"
   return Json.mkObj [
     ("id", (← field j "id")), ("agree", agree), ("spec_impl", spec),
     ("finding", match finding with | some f => Json.str f | none => Json.null),
